@@ -11,7 +11,7 @@ import (
 
 func init() {
 	register("C05", Meta{
-		Explanation: "Forbidden shapes and containment in begin/end-block processing: (iter-nesting) no open store-iterator region reachable from begin/end block contains the creation of another iterator on the same store together with either a write to that store inside the region or a nested key range that is not an extension of the outer prefix (the cachekv/memdb deadlock: the new iterator must move not-yet-sorted dirty keys of its range into the sorted cache under the write lock while the outer iterator's goroutine holds the read lock once more than 64 items are pending); regions reachable only from messages/governance are reported as advisory; (contain) the event / attestation handlers, which consume validator-reported bodies, are invoked only through call chains that pass a recover boundary (a deferred function that calls recover() and does not re-panic), and the recovered path is treated like a handler error (cached writes dropped); (minter-cancel) every call of the batch-cancel function (which panics for Minter) is guarded by chainId != \"minter\" on every call chain; (bounded-loops) code reachable from begin/end block has no loop without an exit and no recursion other than the bounded handler self-call accepted by C03.single-apply; (inventory, evidence only) panic primitives reachable from block processing outside every recover boundary.",
+		Explanation: "Forbidden shapes and containment in begin/end-block processing: (iter-nesting) no open store-iterator region reachable from begin/end block contains the creation of another iterator on the same store together with either a write to that store inside the region or a nested key range that is not an extension of the outer prefix (the cachekv/memdb deadlock: the new iterator must move not-yet-sorted dirty keys of its range into the sorted cache under the write lock while the outer iterator's goroutine holds the read lock once more than 64 items are pending); regions reachable only from messages/governance are reported as advisory; (contain) the event / attestation handlers, which consume validator-reported bodies, are invoked only through call chains that pass a recover boundary (a deferred function that calls recover() and neither re-panics nor applies an unchecked type assertion), and the recovered path is treated like a handler error (cached writes dropped); (minter-cancel) every call of the batch-cancel function (which panics for Minter) is guarded by chainId != \"minter\" on every call chain; (bounded-loops) code reachable from begin/end block has no loop without an exit and no recursion other than the bounded handler self-call accepted by C03.single-apply; (inventory, evidence only) panic primitives reachable from block processing outside every recover boundary.",
 		NotDecided:  []string{"panics outside the boundary that depend on arithmetic or state integrity (inventoried only)", "SDK-internal panics", "liveness / termination in general (only: no exit-less loop, no unbounded recursion)", "the upgrade handlers in app/app.go (they run in the upgrade module's begin-block, outside the property's scope)"},
 		Assumptions: append(append([]string{}, commonAssumptions...), "cosmos-sdk v0.45.4 store/cachekv and tm-db v0.6.6 memdb iterators behave as read (iterator goroutine holds RLock while more than its buffer of items is pending; cachekv.iterator sorts dirty keys of its range with MemDB.Set)"),
 	}, checkC05)
@@ -43,6 +43,11 @@ func hasRecoverBoundary(f *ssa.Function) []*ssa.Defer {
 				}
 			}
 			if _, ok := i2.(*ssa.Panic); ok {
+				repanic = true
+			}
+			// an unchecked type assertion on what was recovered panics again for every other kind of panic
+			// value (string panics of the SDK math types, runtime errors are errors but plain strings are not)
+			if ta, ok := i2.(*ssa.TypeAssert); ok && !ta.CommaOk {
 				repanic = true
 			}
 		})
